@@ -1,4 +1,5 @@
 import ShellOp.Proofs.MetricsRepl
+import ShellOp.Proofs.TransMetrics
 import ShellOp.Proofs.MetricsU
 import ShellOp.Proofs.MetricsSim
 import ShellOp.Proofs.MetricsSimU
@@ -565,5 +566,25 @@ example :
       { name := 22, action := "observe", value := some 4, buckets := true }] []).1
     st.uentries = [{ name := 20, key := c, val := 5 }, { name := 21, key := c, val := 5 },
                    { name := 22, key := c, val := 5, cnt := 2 }] := by decide
+
+/-! ## Tie T4: the validation of the model is the code
+
+`ShellOp.Trans.validateMetricOperation` / `validateOperations` are regenerated on every run from
+`ValidateMetricOperation` / `ValidateOperations` (operation.go) by `extract/translate.go`; the
+`multierror` list is translated as the number of errors appended. -/
+
+/-- The validation as translated from the current source reports no error exactly when the model's
+`validOp` accepts the operation, and for a batch exactly when `validBatch` accepts it — for every
+operation (all field combinations) and every batch. -/
+theorem translated_validation_eq_model (op : Op) (ops : List Op) :
+    (ShellOp.Trans.validateMetricOperation op = 0 ↔ validOp op = true) ∧
+    (ShellOp.Trans.validateOperations ops = 0 ↔ validBatch ops = true) :=
+  ⟨ShellOp.Proofs.TransMetrics.validate_op_iff op action_tables.2.1 action_tables.2.2,
+   ShellOp.Proofs.TransMetrics.validate_ops_iff ops action_tables.2.1 action_tables.2.2⟩
+
+example : ShellOp.Trans.validateMetricOperation { name := 1, action := "observe", value := some 3 } = 1
+    ∧ ShellOp.Trans.validateMetricOperation { name := 1, group := 2, action := "expire" } = 0
+    ∧ ShellOp.Trans.validateOperations [{ name := 1, action := "set", value := some 3 }, { action := "add" }] = 1 := by
+  decide
 
 end ShellOp.Metrics.C16
